@@ -376,4 +376,6 @@ func rulesC02(e *Engine, r *Report) {
 	e.shareRule(r, "C07", "R07.5", "R02.15", "a restart does not release what was never sent: at start-up the receiver's positive answer - which is about a name - marks a cache entry done (and deletes the file) only when the sent log has a record of that very version, i.e. every byte of it was acknowledged before the sender went down")
 	// ---------------------------------------------------------------- R02.16
 	e.shareRule(r, "C08", "R08.5", "R02.16", "a refused request transmits nothing: the count of parts the sender books as transmitted comes from what the receiver answered (200: all, 206: the announced count) and is zero for every other status - otherwise a refusal is booked as a complete transmission, the file is polled and, the receiver answering for the name, released")
+	// ---------------------------------------------------------------- R02.17
+	e.shareRule(r, "C08", "R08.12", "R02.17", "nothing is booked as transmitted on the word of a page the request was redirected to: the sender counts parts as received only for an answer to the very request that carried them (a payload booked as transmitted is polled, and the receiver answers for the name)")
 }
